@@ -3,6 +3,9 @@
 // plus the chunking arithmetic at type boundaries ("very large values") through the real
 // get_chunk_size with a watchdog.
 #include "seqx.h"
+#include <memory>
+#include <string>
+#include <vector>
 #include <pika/init.hpp>
 #include <pika/execution.hpp>
 #include <atomic>
@@ -64,6 +67,32 @@ static void run_one(Shape n, int workers, long throw_a, long throw_b, const char
     ++seqx::g->states;
 }
 
+// values that are not trivially movable (a moved-from string / vector / unique_ptr is observably empty):
+// they must reach every call and the receiver unchanged - also for n == 0
+template <typename Shape>
+static void run_values(Shape n, int workers, const char* tname)
+{
+    seqx::begin_case("bulk<%s> n=%lld workers=%d with string/vector/unique_ptr values", tname, (long long) n, workers);
+    ++seqx::g->transitions;
+    std::atomic<int> bad_value{0}, total{0};
+    int completions = 0;
+    bool recv_ok = false;
+    auto s = ex::just(std::string(100, 'x'), std::vector<int>{1, 2, 3}, std::make_unique<int>(42)) | ex::continues_on(ex::thread_pool_scheduler{}) |
+        ex::bulk(n, [&](Shape, std::string& a, std::vector<int>& b, std::unique_ptr<int>& c) {
+            if (a.size() != 100 || b.size() != 3 || !c || *c != 42) ++bad_value;
+            ++total;
+        }) |
+        ex::then([&](std::string a, std::vector<int> b, std::unique_ptr<int> c) {
+            ++completions;
+            recv_ok = a == std::string(100, 'x') && b == std::vector<int>{1, 2, 3} && c && *c == 42;
+        });
+    tt::sync_wait(std::move(s));
+    SEQX_CHECK(bad_value == 0, "value-changed", "f saw changed predecessor values (string/vector/unique_ptr)");
+    SEQX_CHECK(total == (long long) n, "call-count", "f was called %d times for n=%lld", (int) total, (long long) n);
+    SEQX_CHECK(completions == 1 && recv_ok, "values-not-forwarded", "the receiver got %d completions; the forwarded string/vector/unique_ptr values are %s", completions, recv_ok ? "intact" : "changed (moved-from)");
+    ++seqx::g->states;
+}
+
 template <typename Shape>
 static void grid_for(const char* tname, long nmax, int workers)
 {
@@ -72,6 +101,7 @@ static void grid_for(const char* tname, long nmax, int workers)
     for (long n = 0; n <= lim; ++n)
     {
         run_one<Shape>((Shape) n, workers, -1, -1, tname);
+        if (n <= 4) run_values<Shape>((Shape) n, workers, tname);
         if (n > 0 && n <= 40) { run_one<Shape>((Shape) n, workers, n - 1, -1, tname); run_one<Shape>((Shape) n, workers, 0, n / 2, tname); }
     }
 }
